@@ -443,6 +443,12 @@ func (rt *RT) mkResult(f *Fn, exec int, r Result, t reflect.Type, slot string, t
 		}
 		sl := reflect.MakeSlice(t, 0, r.N)
 		for e := 0; e < r.N; e++ {
+			if e == 0 && r.Zero {
+				// the first element is the zero value (nil pointer / nil
+				// interface / S0{}): still a member
+				sl = reflect.Append(sl, reflect.Zero(t.Elem()))
+				continue
+			}
 			tok := rt.newTok(f.ID, exec, slot, e)
 			*toks = append(*toks, tok)
 			sl = reflect.Append(sl, mkValue(r.T, r.Impl, tok))
